@@ -73,6 +73,7 @@ def parseLine (views : Views) (ws : List String) : Option (Views × Option TEv) 
       ev (.ret (← parseNat op) (.ok (← parseNat rev) (some v)))
     | ["ret", op, "err", k] => ev (.ret (← parseNat op) (.err (← parseErrKind k)))
     | ["expire", key, rev] => ev (.expire key (← parseNat rev))
+    | ["texpire", key, rev] => ev (.texpire key (← parseNat rev))
     | "ext" :: "put" :: key :: rev :: vs => do
       let (v, r) ← parseVal views vs
       if !r.isEmpty then none
